@@ -463,7 +463,7 @@ func fixLength(isResponse bool, status int, requestMethod string, header Header,
 		// deduplicate Content-Length
 		header["Content-Length"] = []string{first}
 	}
-	cl := strings.TrimSpace(header.GetDirect("Content-Length"))
+	cl := textproto.TrimString(header.GetDirect("Content-Length"))
 	if cl != "" {
 		n, err := parseContentLength(cl)
 		if err != nil {
@@ -520,7 +520,7 @@ func fixTrailer(header Header, te []string) (Header, error) {
 	trailer := make(Header)
 	keys := strings.Split(raw, ",")
 	for _, key := range keys {
-		key = CanonicalHeaderKey(strings.TrimSpace(key))
+		key = CanonicalHeaderKey(textproto.TrimString(key))
 		switch key {
 		case "Transfer-Encoding", "Trailer", "Content-Length":
 			return nil, &badStringError{"bad trailer key", key}
@@ -695,7 +695,7 @@ func (bl bodyLocked) Read(p []byte) (n int, err error) {
 // parseContentLength trims whitespace from s and returns -1 if no value
 // is set, or the value if it's >= 0.
 func parseContentLength(cl string) (int64, error) {
-	cl = strings.TrimSpace(cl)
+	cl = textproto.TrimString(cl)
 	if cl == "" {
 		return -1, nil
 	}
